@@ -278,6 +278,34 @@ struct Snd
     template <typename R>
     op<R> connect(R&& r) const& { return {std::forward<R>(r), ch, KIND}; }
 };
+// a copyable sender whose moved-from state is observable (string payload): wrapping an lvalue of it must copy
+struct LSnd
+{
+    PIKA_STDEXEC_SENDER_CONCEPT
+    std::string tag = "a tag that is too long for the small string optimisation";
+    int ch = 0;
+    template <template <typename...> class Tuple, template <typename...> class Variant>
+    using value_types = Variant<Tuple<int>>;
+    template <template <typename...> class Variant>
+    using error_types = Variant<std::exception_ptr>;
+    static constexpr bool sends_done = true;
+    using completion_signatures = ex::completion_signatures<ex::set_value_t(int), ex::set_error_t(std::exception_ptr), ex::set_stopped_t()>;
+    template <typename R>
+    struct op
+    {
+        std::decay_t<R> r;
+        int ch;
+        bool intact;
+        void start() & noexcept
+        {
+            if (ch == 0) ex::set_value(std::move(r), intact ? 205 : -7);
+            else if (ch == 1) ex::set_error(std::move(r), std::make_exception_ptr(std::runtime_error(intact ? "E2" : "moved-from")));
+            else ex::set_stopped(std::move(r));
+        }
+    };
+    template <typename R>
+    op<R> connect(R&& r) const& { return {std::forward<R>(r), ch, tag.size() > 20}; }
+};
 template <typename W, bool COPYABLE>
 static void sender_grid()
 {
@@ -334,7 +362,7 @@ static void sender_grid()
 // all histories (no de-duplication) up to a depth over two wrapper slots: store small / large sender, move-
 // assign, copy-assign, assign an empty wrapper, reset, move-construct a temporary, connect as rvalue (consumes)
 // and as lvalue (copyable wrappers); reference model: a slot is empty or holds a sender of a known kind
-enum SOp { S_STORE, S_MOVE, S_COPY, S_ASSIGN_EMPTY, S_RESET, S_MOVECONS, S_CONNECT_R, S_CONNECT_L, S_SELF_MOVE };
+enum SOp { S_STORE, S_MOVE, S_COPY, S_ASSIGN_EMPTY, S_RESET, S_MOVECONS, S_CONNECT_R, S_CONNECT_L, S_SELF_MOVE, S_STORE_LVALUE };
 struct SStep { int op, a, b; };
 template <typename W, bool COPYABLE>
 static void sender_histories(int depth)
@@ -351,8 +379,10 @@ static void sender_histories(int depth)
         alpha.push_back({S_MOVECONS, a, 1 - a});
         alpha.push_back({S_CONNECT_R, a, 0});
         if (COPYABLE) alpha.push_back({S_CONNECT_L, a, 0});
+        if (COPYABLE) alpha.push_back({S_STORE_LVALUE, a, 0});    // construct / assign from a non-const lvalue sender
+        if (COPYABLE) alpha.push_back({S_STORE_LVALUE, a, 1});
     }
-    static const char* opn[] = {"store", "move_assign", "copy_assign", "assign_empty", "reset", "move_construct_temp_then_move_to", "connect_rvalue", "connect_lvalue", "self"};
+    static const char* opn[] = {"store", "move_assign", "copy_assign", "assign_empty", "reset", "move_construct_temp_then_move_to", "connect_rvalue", "connect_lvalue", "self", "store_from_lvalue"};
     size_t const n = alpha.size();
     for (int ch = 0; ch < 3; ++ch)
     {
@@ -400,10 +430,25 @@ static void sender_histories(int depth)
                         case S_MOVECONS: { W t(std::move(w[st.a])); int m = model[st.a]; model[st.a] = -1; w[st.b] = std::move(t); model[st.b] = m; } break;
                         case S_CONNECT_R: connect(w[st.a], model[st.a], true); break;
                         case S_CONNECT_L: connect(w[st.a], model[st.a], false); break;
+                        case S_STORE_LVALUE:
+                            if constexpr (COPYABLE)
+                            {
+                                LSnd src;
+                                src.ch = ch;
+                                if (st.b == 0) w[st.a] = src;                 // assignment from an lvalue
+                                else { W t(src); w[st.a] = std::move(t); }    // construction from an lvalue
+                                model[st.a] = 2;
+                                // wrapping changes nothing observable: the original is still what it was
+                                SEQX_CHECK(src.tag.size() > 20, "differs-from-unerased", "wrapping a non-const lvalue sender (%s) changed the original: it was moved from", st.b ? "constructor" : "assignment");
+                                W again(src);
+                                int m2 = 2;
+                                connect(again, m2, true);
+                            }
+                            break;
                         }
                         for (int k = 0; k < 2; ++k)
                             SEQX_CHECK(w[k].empty() == (model[k] < 0), "differs-from-unerased", "after %s(%d,%d): slot %d is %s, the un-erased reference is %s", opn[st.op], st.a, st.b, k, w[k].empty() ? "empty" : "full", model[k] < 0 ? "empty" : "full");
-                        int live[2] = {0, 0};
+                        int live[3] = {0, 0, 0};
                         for (int k = 0; k < 2; ++k) if (model[k] >= 0) ++live[model[k]];
                         SEQX_CHECK(g_live[0] == live[0] && g_live[1] == live[1], "lifetime-ledger", "after %s(%d,%d): %d small / %d large senders alive, reference %d / %d", opn[st.op], st.a, st.b, g_live[0], g_live[1], live[0], live[1]);
                     }
